@@ -113,6 +113,12 @@ OMEN_MODELS = [
      'cp': {'aa': 0, 'ab': 1, 'ac': 3, 'ba': 0, 'bb': 2, 'bc': 1, 'ca': 1, 'cb': 0, 'cc': 2}, 'ln': [10, 0, 1, 1, 2]},
     {'ngram': 3, 'alphabet': ['a', 'b'], 'ip': {'aa': 0, 'ab': 1, 'ba': 10, 'bb': 2}, 'ep': {}, 'top_level': 14,
      'cp': {'aaa': 10, 'aab': 0, 'aba': 0, 'abb': 10, 'baa': 0, 'bab': 1, 'bba': 10, 'bbb': 0}, 'ln': [10, 10, 0, 1, 0]},
+    # alphabets with a blank / a no-break space: n-grams that end in (or consist of) white space are n-grams like any other
+    {'ngram': 2, 'alphabet': ['a', ' '], 'ip': {'a': 0, ' ': 1}, 'ep': {}, 'cp': {'aa': 0, 'a ': 1, ' a': 0, '  ': 2}, 'ln': [10, 0, 1]},
+    {'ngram': 3, 'alphabet': ['a', ' '], 'ip': {'aa': 0, 'a ': 1, ' a': 1, '  ': 2}, 'ep': {},
+     'cp': {'aaa': 1, 'aa ': 0, 'a a': 0, 'a  ': 2, ' aa': 0, ' a ': 1, '  a': 0, '   ': 1}, 'ln': [10, 10, 0, 1, 2]},
+    {'ngram': 2, 'alphabet': ['a', '\u00a0', '\u3000'], 'ip': {'a': 0, '\u00a0': 1, '\u3000': 2}, 'ep': {},
+     'cp': {'aa': 1, 'a\u00a0': 0, 'a\u3000': 2, '\u00a0a': 0, '\u00a0\u3000': 1, '\u3000a': 0, '\u3000\u3000': 3}, 'ln': [5, 1, 0, 2]},
 ]
 
 
@@ -282,7 +288,13 @@ def run_markov(tier, acc):
             spec['prince'] = D.PRINCE
             rdir = os.path.join(root, 'r%d%s' % (mi, vname))
             R.write_ruleset(rdir, spec)
-            g = D.load(G, rdir, False, False, 'Grammar')
+            try:
+                g = D.load(G, rdir, False, False, 'Grammar')
+            except Exception as e:
+                acc.evals += 1
+                acc.fail({'kind': 'markov', 'model': mi, 'variant': vname}, 'Markov model %d (alphabet %r, variant %s): the guesser cannot load the ruleset: %r'
+                         % (mi, m['alphabet'], vname, e), 'markov-load')
+                continue
             types, _ = R.ref_loaded(spec)
             for i, (p, vals) in enumerate(types['M']):
                 acc.evals += 1
